@@ -46,16 +46,29 @@ func ppFromVal(v w.Val) []*object.ProjectedPoint {
 	return out
 }
 
+// withErr reports a non-nil error together with its code: Err{ (payload, code) }. The code of a SpatialIdError is the part of
+// Error() before the first comma (common/errors/errors.go: "code,message[,detail]"); any other error type is reported as its type name.
+func withErr(v w.Val, err error) w.Val {
+	if err == nil {
+		return v
+	}
+	code := fmt.Sprintf("%T", err)
+	if strings.HasSuffix(code, "spatialIdError") {
+		code = strings.SplitN(err.Error(), ",", 2)[0]
+	}
+	return w.Err{V: w.L(v, w.S(code))}
+}
+
 func fnToProjected() *run.Fn {
 	return &run.Fn{Name: "ConvertPointListToProjectedPointList", Invoke: func(a []w.Val) w.Val {
 		pp, err := shape.ConvertPointListToProjectedPointList(PointsFromVal(a[0]), int(w.AsInt(a[1])))
-		return w.WithErr(ppVal(pp), err)
+		return withErr(ppVal(pp), err)
 	}}
 }
 func fnToGeographic() *run.Fn {
 	return &run.Fn{Name: "ConvertProjectedPointListToPointList", Invoke: func(a []w.Val) w.Val {
 		ps, err := shape.ConvertProjectedPointListToPointList(ppFromVal(a[0]), int(w.AsInt(a[1])))
-		return w.WithErr(PointsVal(ps), err)
+		return withErr(PointsVal(ps), err)
 	}}
 }
 
@@ -63,11 +76,11 @@ func fnToGeographic() *run.Fn {
 func fnRoundTrip() *run.Fn {
 	return &run.Fn{Name: "ProjectRoundTrip", Invoke: func(a []w.Val) w.Val {
 		pp, err := shape.ConvertPointListToProjectedPointList(PointsFromVal(a[0]), consts.OrthCrs)
-		fwd := w.WithErr(ppVal(pp), err)
+		fwd := withErr(ppVal(pp), err)
 		var back w.Val = w.Nil{}
 		if err == nil {
 			ps, err2 := shape.ConvertProjectedPointListToPointList(pp, consts.OrthCrs)
-			back = w.WithErr(PointsVal(ps), err2)
+			back = withErr(PointsVal(ps), err2)
 		}
 		return w.L(w.I(consts.GeoCrs), w.I(consts.OrthCrs), fwd, back)
 	}}
